@@ -25,6 +25,7 @@ type GenOpts struct {
 	TypedefArgs  bool // every file gets typedefs of every shape and function signatures prefer them (C19)
 	Hostile      bool // draw identifiers and file names from the hostile pool (Go keywords, initialisms, generated-method names, std package names)
 	BackEdges    bool // cyclic includes: later files include earlier ones and typedef their types (compile-only properties)
+	TypeAnnots   bool // annotations with arbitrary keys on typedefs, structs, unions, exceptions, enums and on base / container type expressions (string (validate.format = "hex"), set<string> (go.type = "slice", owner = "x")): the TYPE of a field then has annotations of its own (C15)
 	SameBaseRuns bool // one program in two with >= 3 files gives three or four of its files, neighbours included, one base name in different directories; services prefer parents in same-named files (C19)
 	// Avoid lists defect classes the generator must not produce (known,
 	// unrepaired defects excluded by construction; each exclusion is counted
@@ -608,6 +609,7 @@ func (g *gctx) genEnum() *Def {
 		}
 		d.Items = append(d.Items, it)
 	}
+	d.Annots = g.foreignAnnots(d.Annots, 4)
 	return d
 }
 
@@ -618,19 +620,19 @@ func (g *gctx) genType(depth int, allowStruct bool) *Type {
 	mode := g.intn(0, 9, "tmode")
 	switch {
 	case mode <= 3 || depth <= 0 && mode <= 6:
-		return &Type{K: pickStr(g, baseKinds, "base")}
+		return g.typeAnnots(&Type{K: pickStr(g, baseKinds, "base")}, 5)
 	case mode <= 6 && depth > 0:
 		switch g.intn(0, 2, "ckind") {
 		case 0:
-			return &Type{K: TList, Elem: g.genType(depth-1, allowStruct)}
+			return g.typeAnnots(&Type{K: TList, Elem: g.genType(depth-1, allowStruct)}, 4)
 		case 1:
 			t := &Type{K: TSet, Elem: g.genType(depth-1, allowStruct)}
 			if g.o.Annotations && g.chance(1, 4, "slice") {
 				t.Annots = map[string]string{"go.type": "slice"}
 			}
-			return t
+			return g.typeAnnots(t, 4)
 		default:
-			return &Type{K: TMap, Key: g.genType(depth-1, allowStruct), Val: g.genType(depth-1, allowStruct)}
+			return g.typeAnnots(&Type{K: TMap, Key: g.genType(depth-1, allowStruct), Val: g.genType(depth-1, allowStruct)}, 4)
 		}
 	default:
 		var cands []*Def
@@ -654,7 +656,33 @@ func (g *gctx) genType(depth int, allowStruct bool) *Type {
 
 func (g *gctx) genTypedef() *Def {
 	d := &Def{Kind: DTypedef, Name: g.newTypeName(), Target: g.genType(2, true)}
+	d.Annots = g.foreignAnnots(d.Annots, 3)
 	return d
+}
+
+// foreignKeys are annotation keys thriftrw gives no meaning to.
+var foreignKeys = []string{"validate.format", "validate.max", "owner", "py.immutable", "cpp.type", "java.swift.mutable", "x", "deprecated", "pii"}
+var foreignVals = []string{"hex", "10", "", "team-a", "std::string", "true", "\x00", "\x00", "with \"quotes\""}
+
+// foreignAnnots adds, one time in den when TypeAnnots is set, one or two annotations of other
+// tools to a.
+func (g *gctx) foreignAnnots(a map[string]string, den int) map[string]string {
+	if !g.o.TypeAnnots || !g.chance(1, den, "foreign_annots") {
+		return a
+	}
+	if a == nil {
+		a = map[string]string{}
+	}
+	for i, n := 0, g.intn(1, 2, "foreign_n"); i < n; i++ {
+		a[foreignKeys[g.intn(0, len(foreignKeys)-1, "foreign_k")]] = foreignVals[g.intn(0, len(foreignVals)-1, "foreign_v")]
+	}
+	return a
+}
+
+// typeAnnots puts foreign annotations on a base or container type expression.
+func (g *gctx) typeAnnots(t *Type, den int) *Type {
+	t.Annots = g.foreignAnnots(t.Annots, den)
+	return t
 }
 
 // structOnlyStems are legal in structs and unions but reserved in exceptions (Error, ErrorName methods).
@@ -767,6 +795,7 @@ func (g *gctx) genStruct() *Def {
 		}
 		d.Fields = append(d.Fields, f)
 	}
+	d.Annots = g.foreignAnnots(d.Annots, 4)
 	return d
 }
 
